@@ -224,11 +224,11 @@ func runC11CommitFault(ci interface{}, st *CaseStats) error {
 }
 
 var specC11CommitFault = &Spec{
-	ID:   "C11",
-	Rule: "TiKV commit-fault mode: case = a write batch (1..4 puts, optionally a put-if-absent or compare-and-swap whose condition holds) whose prewrite or commit request the cluster answers once with a key error (retryable / abort), injected between the TiKV client and the mock cluster. Oracle: Commit returns an error unless the whole batch is in the store; after a definite error nothing of it is there; never a part of it; the next batch succeeds. Non-trivial = the fault was reached; distinct = SHA-1 of the case",
-	Gen:  genC11CommitFault,
-	New:  func() interface{} { return &c11CommitFaultCase{} },
-	Run:  runC11CommitFault,
+	ID:      "C11",
+	Rule:    "TiKV commit-fault mode: case = a write batch (1..4 puts, optionally a put-if-absent or compare-and-swap whose condition holds) whose prewrite or commit request the cluster answers once with a key error (retryable / abort), injected between the TiKV client and the mock cluster. Oracle: Commit returns an error unless the whole batch is in the store; after a definite error nothing of it is there; never a part of it; the next batch succeeds. Non-trivial = the fault was reached; distinct = SHA-1 of the case",
+	Gen:     genC11CommitFault,
+	New:     func() interface{} { return &c11CommitFaultCase{} },
+	Run:     runC11CommitFault,
 	Engines: []string{EngTiKV, EngTiKVMet},
 }
 
